@@ -13,13 +13,15 @@ def T(name, variant, *args, **kw):
 CHECK = {
   'id': 'C20',
   'level': 'model_checking',
-  'rule': ('explicit-state breadth-first search over all histories up to the depth bound of a 49-operation alphabet on ONE real File '
+  'rule': ('explicit-state breadth-first search over all histories up to the depth bound of a 54-operation alphabet on ONE real File '
            'object and two paths in a per-run scratch directory: sopen(path 0|1, "w+b"|"rb"|"r+b"|"ab") (also on an already open File and on '
            'the second path), sclose, stell, seof, sflush, swrite("" | "\\xff" | "\\0y\\0" | 8193-byte block holding every byte value, period 509), sread(0|1|3|8193), '
            'sseek({0,1,-1} x {SEEK_SET,SEEK_CUR,SEEK_END}), sseek(stell, SEEK_SET) (a seek that moves nowhere), print_to("%s %li;", "k" | 257 x "k", 42), scan_from of such a record, '
            'with(f in file){ nothing | sclose | stell | swrite | sread | print_to | sopen }, del followed by new_raw(File) / new(File) / '
            'new_raw(File,path,mode) / a stack-allocated File (released with destruct only), destruct(file) with the object kept (it is then a File that is '
-           'not open), construct(file,path,mode) on the existing object, and one environment operation: another stream appends a byte to the file the File has open (only while the File '
+           'not open), construct(file,path,mode) on the existing object, nested with blocks (with(file){with(mutex){swrite}}, with(mutex){with(file){swrite}}, '
+           'with(file){with(second File on the other path){swrite}}, with(file){call of a function that runs with(mutex){swrite} and returns / throws}: every block '
+           'stops its own object - each stream closed exactly once, Mutex unlocked, sclose afterwards raises IOError), and one environment operation: another stream appends a byte to the file the File has open (only while the File '
            'has no pending output).  Every history runs on the real File, on a twin plain FILE* (same stdio calls, same order, own files) and on a '
            'byte-array reference model; the state key is the model: bytes of both files, open flag, path, mode, position, eof flag, direction of '
            'the last transfer, refined by glibc\'s bookkeeping of the real stream (flags, buffer offsets) whenever that differs from the twin stream\'s - '
@@ -45,8 +47,8 @@ CHECK = {
            'five backends (pipe up to 32768): result, stell/seof, sflush, size and content on disk, one sread(n), the read at end-of-file, sread(m) for every '
            'ladder size m <= n, sclose, disk again.  BFS instances named *-bufsiz / d6-full use a BUFSIZ-byte big block instead of 8193'),
   'bounds': {
-    'quick': 'all histories of depth <= 5 over the full 49-operation alphabet (gcc build); depth <= 4 under ASan+UBSan; print ladder N = 0..300 and 14 larger sizes up to 20000 x 3 variants, byte sweep 5 backends x 2 layouts x 2 write chunkings, write-size ladder 19 sizes x 2 alignments x 5 backends (gcc and ASan); depth <= 4 also with a BUFSIZ-byte big block',
-    'thorough': 'all histories of depth <= 7 over 48 operations (all but the 257-character print_to) and of depth <= 6 over the full 49-operation alphabet (gcc build); depth <= 6 under ASan+UBSan; the same print ladder, byte sweep and write-size ladder; the depth-6 gcc instance uses a BUFSIZ-byte big block, the others 8193',
+    'quick': 'all histories of depth <= 5 over the full 54-operation alphabet (gcc build); depth <= 4 under ASan+UBSan; print ladder N = 0..300 and 14 larger sizes up to 20000 x 3 variants, byte sweep 5 backends x 2 layouts x 2 write chunkings, write-size ladder 19 sizes x 2 alignments x 5 backends (gcc and ASan); depth <= 4 also with a BUFSIZ-byte big block',
+    'thorough': 'all histories of depth <= 7 over 53 operations (all but the 257-character print_to) and of depth <= 6 over the full 54-operation alphabet (gcc build); depth <= 6 under ASan+UBSan; the same print ladder, byte sweep and write-size ladder; the depth-6 gcc instance uses a BUFSIZ-byte big block, the others 8193',
   },
   'assumptions': [
     'glibc stdio is the reference for the twin stream; a disagreement between the twin and the harness\'s own byte-array model is reported as a harness error (exit 2), never as a verdict',
